@@ -90,8 +90,14 @@ func lookupsOf(info *gtab.Info, ls *gtab.Features, on map[string]bool) []gtab.Lo
 
 // checkSelection applies the selection oracle to one FindLookups query.
 func checkSelection(k *mon.Case, info *gtab.Info, lang language.Tag, on map[string]bool, desc string) []gtab.LookupIndex {
+	return checkSelectionOf(k, info, info, lang, on, desc)
+}
+
+// checkSelectionOf queries one structure and takes the oracle from another:
+// queried is what the library read from the bytes it wrote for info.
+func checkSelectionOf(k *mon.Case, queried, info *gtab.Info, lang language.Tag, on map[string]bool, desc string) []gtab.LookupIndex {
 	var got []gtab.LookupIndex
-	if k.Guard("FindLookups", func() { got = info.FindLookups(lang, on) }) {
+	if k.Guard("FindLookups", func() { got = queried.FindLookups(lang, on) }) {
 		return nil
 	}
 	k.Eval()
@@ -132,7 +138,7 @@ func checkSelection(k *mon.Case, info *gtab.Info, lang language.Tag, on map[stri
 	// the same on every call
 	for rep := 0; rep < 200; rep++ {
 		var again []gtab.LookupIndex
-		if k.Guard("FindLookups", func() { again = info.FindLookups(lang, on) }) {
+		if k.Guard("FindLookups", func() { again = queried.FindLookups(lang, on) }) {
 			return got
 		}
 		if fmt.Sprint(again) != fmt.Sprint(got) {
@@ -436,6 +442,26 @@ func runC15(c *mon.Ctx) {
 		desc := fmt.Sprintf("lang=%v features-on=%v script-list=%v", lang, on, scriptListString(info))
 		k.Distinct(desc)
 		checkSelection(k, info, lang, on, desc)
+		if !wild && !k.Failed() && k.Index%2 == 0 {
+			// the same structure as the library reads it from its own bytes:
+			// the selection must be the one the original structure defines
+			var back *gtab.Info
+			var err error
+			if k.Guard("Encode+Read", func() { back, err = gtab.Read(bytes.NewReader(info.Encode()), gtab.TypeGsub) }) {
+				return
+			}
+			if err != nil {
+				k.Fail("mismatch", "select:read-back-error", "gtab.Read rejects the bytes written for the structure: %v (%s)", err, desc)
+				return
+			}
+			checkSelectionOf(k, back, info, lang, on, "read back; "+desc)
+			if !k.Failed() {
+				k.Class("select:read-back")
+				if len(info.ScriptList) >= 2 {
+					k.Class("select:read-back,>=2-systems")
+				}
+			}
+		}
 		k.Class(fmt.Sprintf("language-systems=%d", min(len(info.ScriptList), 5)))
 		if !k.Failed() {
 			if oorLookup {
@@ -933,7 +959,7 @@ func runC15(c *mon.Ctx) {
 		"kern-first-subtable:minimum", "kern-first-subtable:override", "kern-first-subtable:minimum-raises-implicit-0", "kern-first-subtable:minimum-below-implicit-0",
 		"kern-value:int16-extreme", "kern-value:large", "kern:accumulation-leaves-int16",
 		"select:lookup-index-out-of-range", "select:optional-feature-index-out-of-range", "select:required-feature-index-out-of-range", "layout:gdef-marks", "layout:history-compared", "layout:second-layouter-flipped-switches", "fixed-pitch=true", "fixed-pitch=false",
-		"features:all-off", "features:explicit", "features:nil-defaults", "layout:cmap=mac", "layout:cmap=12", "layout:ligature-ignores-marks"}
+		"features:all-off", "features:explicit", "features:nil-defaults", "layout:cmap=mac", "layout:cmap=12", "layout:ligature-ignores-marks", "select:read-back,>=2-systems"}
 	for s := 0; s < 32; s++ {
 		req = append(req, fmt.Sprintf("ligature-subset=%d", s))
 	}
